@@ -171,7 +171,7 @@ func (fr *frame) runDefer(d *deferred) {
 			// Deferred call created a new state of panic.
 			r := recover()
 			switch r.(type) {
-			case pathAbort, internalError:
+			case pathAbort, internalError, crashPanic:
 				panic(r)
 			}
 			fr.panicking = true
